@@ -836,5 +836,10 @@ func DeleteVirtualTable(tname *string, orgid int64) error {
 		log.Errorf("DeleteVirtualTable : Error writing to vtableFilename=%v, Error=%v", vTableFileName, errW)
 		return errW
 	}
+	// forget the table in memory too, otherwise a later AddVirtualTable of the same name
+	// believes the file still lists it
+	globalTableAccessLock.Lock()
+	delete(allVirtualTables[orgid], *tname)
+	globalTableAccessLock.Unlock()
 	return nil
 }
